@@ -763,6 +763,42 @@ def core_cases(ctx, graphs_):
     return cases
 
 
+def vote_cases(ctx, graphs_):
+    """vote_update: the checked model (SkNet/Model/KernelsVote.lean, theorem inbounds_vote) against the kernel."""
+    rng = ctx.rng
+    tasks = []
+    for g in graphs_:
+        n = g['n']
+        if n != g['m'] or n == 0:
+            continue
+        g2 = dict(g, dtype='float', data=[float(rng.choice([1, 1, 2, 3])) for _ in g['indices']])
+        for _ in range(2):
+            pool = [-1, -1, 0, 1, 2, n, n + 3, rng.randint(0, 12)]
+            labels = [rng.choice(pool) for _ in range(n)]
+            index = [i for i in range(n) if rng.random() < 0.7]
+            rng.shuffle(index)
+            tasks.append({'id': len(tasks), 'algo': 'vote_update_kernel', 'graph': g2,
+                          'extra': {'labels_vec': labels, 'index': index}, 'flavour': 'plain'})
+    res = run_pool(ctx.overlay_root, tasks, 10, _nworkers(), tag='v')
+    judge(ctx, tasks, res, 'plain')
+    cases = []
+    for t in tasks:
+        r = res[t['id']]
+        g = t['graph']
+        if r['status'] == 'ok' and 'value' in r:
+            impl = 'ok ' + enc_list(r['value'])
+        elif r['status'] == 'exc':
+            impl = 'err ' + str(r.get('exc'))
+        else:
+            continue
+        run = 'c17.vote %d %s %s %s %s %s' % (g['n'], enc_list(g['indptr']), enc_list(g['indices']),
+                                              enc_list(int(x) for x in g['data']), enc_list(t['extra']['labels_vec']),
+                                              enc_list(t['extra']['index']))
+        cases.append(Case(('vote', run), {'entry': 'vote_update', 'kind': 'model'}, run, impl, None,
+                          len(g['indices']) > 0, {'task': {k: t[k] for k in ('algo', 'graph', 'extra', 'flavour')}}))
+    return cases
+
+
 def kernel_model_cases(ctx):
     """Hand models with checked access against the real kernels: run lines, compared exactly."""
     rng = ctx.rng
@@ -780,7 +816,7 @@ def kernel_model_cases(ctx):
         if rng.random() < 0.5:
             a = graphs.unsorted_copy(a, rng)
         gs.append(gdict('rand%d' % n, a))
-    cases = core_cases(ctx, gs)
+    cases = core_cases(ctx, gs) + vote_cases(ctx, gs)
     _evaluate(ctx, cases)
 
 
